@@ -75,7 +75,6 @@ def targets():
     for cname, tu, flt, kw in BODIES:
         defs = ['NV_C02'] + (['NV_LS_MAX=1000'] if cname.startswith('asga') else [])   # asga::lsearch_max_iters in [10, 1000]
         ts.append(Target(cname, [body(cname, tu, flt, **kw), common.fn_done()], H, replace=['solver_done'], defines=defs))
-    ts.append(penalty_target())
     ts += gs_targets()
     return ts
 
